@@ -620,7 +620,7 @@ def run(ctx):
         'first/last/all, view of view ...; histogram in coverage.features); distinct = distinct implementation transcripts')
     ctx.assumptions += ['C text tied by correspondence only: extracted Gallina cursor model vs the library built from the working '
                         'tree; Table slot occupancy and every Slice\'s computed range compared white-box',
-                        'Tree iteration modelled at the level of in-order positions (pointer walk of Tree_Iter_Next not modelled)',
+                        'Tree: the walk over child/parent links is modelled and proved for every binary tree shape; the shape Tree.c builds is not (C03)',
                         'interleaved walks over one Range/Slice/Map object (shared cursor state) are outside the property']
     # findings.d/C11.json is this property's own fragment; known_findings.json is assembled from it later
     frag = os.path.join(vlib.VERIF, 'findings.d', 'C11.json')
